@@ -154,8 +154,16 @@ def trimExpect (d : Nat) (fn : String) (args out : List String) : Option String 
       else none
   | _, _ => none
 
+/-- `sup<d> <cls> <shape> dir(d)`: a zero direction (or one whose squared norm underflows binary64) has no unit vector: for the
+round shapes (`dir.normalize() * radius`) this is outside the domain of `local_support_point` (as in C10) -/
+def supInvalid (d : Nat) (args : List String) : Bool :=
+  let dirToks := (args.reverse.take d).reverse
+  match run (pvecN d) dirToks with
+  | some v => let w := qs v; rdot w w < 1 / (2 : Rat) ^ 1000
+  | none => false
+
 def fns : List String :=
-  ["dist", "cp", "ct", "it", "cm", "cast", "nl", "ray", "proj", "mass", "bv", "trim", "segm", "clip", "clipn"]
+  ["dist", "cp", "ct", "it", "cm", "cast", "nl", "ray", "proj", "mass", "bv", "trim", "segm", "clip", "clipn", "clipal", "cliphp", "sup"]
 
 def handler (fn : String) : Option Handler :=
   let base := (fn.dropEnd 1).toString
@@ -168,7 +176,7 @@ def handler (fn : String) : Option Handler :=
     oracle := fun args out =>
       if out.contains "noshape" then "skip shape-constructor-refused" else
       match generic fn args out with
-      | some v => v
+      | some v => if base == "sup" && supInvalid d args then "skip zero-or-underflowing-support-direction" else v
       | none =>
         let extra :=
           if base == "cm" then cmExpect d fn args out
